@@ -289,13 +289,12 @@ theorem simpleE_noMarks (sc : Scope) (e : Expr) (c : List Instr) (hs : simpleE e
   | _ => exact compileExpr_noMarks sc _ c (by simpa [simpleE] using hs) h
 
 mutual
-/-- statements of L0 that `compileStmt` accepts, whose conditions are call-free and whose other
-expressions satisfy `okE` -/
+/-- statements of L0 that `compileStmt` accepts and whose expressions (conditions included) satisfy `okE` -/
 def okS (okE : Expr → Bool) : Stmt → Bool
   | .decl _ _ _ e => okE e
   | .assign (.var _) _ e => okE e
-  | .ite c t e => noCall c && okB okE t && (match e with | none => true | some eb => okB okE eb)
-  | .while c b => noCall c && okB okE b
+  | .ite c t e => okE c && okB okE t && (match e with | none => true | some eb => okB okE eb)
+  | .while c b => okE c && okB okE b
   | .break_ | .continue_ | .ret none => true
   | .ret (some e) => okE e
   | .expr e => okE e
